@@ -128,6 +128,31 @@ func parse(src string) (class string, detail string) {
 	return "ok", ""
 }
 
+// runParse: the code parser's outcome class with a time bound; false = gave up (hang)
+func runParse(t *lib.Trace, src string, slowest *time.Duration) bool {
+	done := make(chan [2]string, 1)
+	start := time.Now()
+	go func() {
+		c, d := parse(src)
+		done <- [2]string{c, d}
+	}()
+	select {
+	case res := <-done:
+		if el := time.Since(start); el > *slowest {
+			*slowest = el
+		}
+		t.Count("parse." + res[0])
+		if res[0] == "runtime-error" {
+			t.Fail("parser-runtime-panic", fmt.Sprintf("compile.Constant(%q) panicked with a Go runtime error: %s", src, res[1]))
+		}
+	case <-time.After(20 * time.Second):
+		t.Fail("parser-hang", fmt.Sprintf("compile.Constant(%q) did not return within 20 s", src))
+		t.Close()
+		os.Exit(0)
+	}
+	return true
+}
+
 func main() {
 	t := lib.Open()
 	defer t.Close()
@@ -158,26 +183,31 @@ func main() {
 			t.Sample(fmt.Sprintf("%q => %s", src, show(items)))
 		}
 
-		// parser: outcome class, bounded time
-		done := make(chan [2]string, 1)
-		start := time.Now()
-		go func() {
-			c, d := parse(src)
-			done <- [2]string{c, d}
-		}()
-		select {
-		case res := <-done:
-			if el := time.Since(start); el > slowest {
-				slowest = el
+		if !runParse(t, src, &slowest) {
+			return
+		}
+	}
+
+	// grammar-directed programs (statements, multi-assignment to every kind of target, named /
+	// shortcut / @ arguments, class bodies), each cut at EVERY byte (hence every token boundary)
+	// and with empty-string tokens substituted: parser outcome class on all of them, token
+	// streams (mirror + direct oracles) on the program and a sample of its cuts
+	for i := 0; i < n/10; i++ {
+		prog := lib.LangProgram(r, count)
+		cuts := lib.LangCuts(r, prog, count)
+		t.CountN("cuts.inputs", len(cuts))
+		for k, src := range cuts {
+			items, looped := lexAll(lexer.NewLexer(src), len(src))
+			checkStream(t, "code", src, items, looped)
+			if !looped && (k == 0 || r.Intn(24) == 0) {
+				t.Q("lex c "+lib.X(src), show(items))
 			}
-			t.Count("parse." + res[0])
-			if res[0] == "runtime-error" {
-				t.Fail("parser-runtime-panic", fmt.Sprintf("compile.Constant(%q) panicked with a Go runtime error: %s", src, res[1]))
+			if !runParse(t, src, &slowest) {
+				return
 			}
-		case <-time.After(20 * time.Second):
-			t.Fail("parser-hang", fmt.Sprintf("compile.Constant(%q) did not return within 20 s", src))
-			t.Close()
-			os.Exit(0)
+		}
+		if i < 2 {
+			t.Sample("program: " + prog)
 		}
 	}
 	if slowest > 2*time.Second { // informational only: wall-clock must not decide the verdict
